@@ -21,7 +21,9 @@ RULE = ("(1) long strings: strings written through _write_longstring in both esc
         "records (every value type, choices / spawnflags blocks, tags, readonly/report, empty / long / nasty strings, both custom_syntax and "
         "label_spawnflags settings): model text compared CHARACTER FOR CHARACTER with KVDef.export / IODef.export; entity bodies assembled from "
         "implementation-written lines, and copies damaged by 1-2 random edits, parsed by the model (parseBody over the model tokenizer) and by the "
-        "implementation: same records or both reject. Search = the property itself on the implementation: "
+        "implementation: same records or both reject. (6) whole entities / files: generated FGDs and the shipped entities (quick: 250, thorough: all 1638): "
+        "model text of exportFile compared character for character with FGD.export / EntityDef.export; generated files and damaged copies parsed by the "
+        "model (parseFile) and the implementation. Search = the property itself on the implementation: "
         "generated FGDs (every value type, empty display name/default/description, 1-3k character strings, tagged "
         "duplicates, aliases, helpers, resources) and all shipped entities through export->parse->export (custom_syntax x "
         "label_spawnflags), serialise->unserialise, and engine_def-style single lookups on fresh databases vs the full load; "
@@ -37,8 +39,10 @@ TRUSTED = ["models: lean/Srctools/Model/C16.lean (_fgd_escape, _write_longstring
            "lzma, struct and utf-8 coding of the string tables are not modelled (the dictionary is a list of strings)",
            "the normal form after a text round trip (I/O type decay, boolean default, spawnflags display name, newline->space in "
            "choice/flag names, quote -> '' without custom syntax) is computed by harness/c16_fgd.py:norm_text"]
-NOT_MODELLED = ['entity header (helpers, base/aliasof, description), @resources, snippets, @include, @AutoVisgroup, @MaterialExclusion: '
-                'covered by the round-trip search only (keyvalue / input / output lines and the entity body ARE modelled: Model/C16KV.lean)',
+NOT_MODELLED = ['snippets, @include, @mapsize, @AutoVisgroup, @MaterialExclusion, autovis(...) and @ExtendClass merging: covered by the round-trip search '
+                'only (whole entity definitions - header, helpers as generic name(args), body, @resources - and files of entities ARE modelled: '
+                'Model/C16KV.lean, Model/C16Ent.lean); typed helpers of _fgd_helpers.py are kept as (name, exported arguments): that exported arguments '
+                'are a fixed point of their parse/export is checked by the search on every run',
                 'a base class name missing from the lazy database (KeyError inside _parse_block)',
                 'custom (unknown) value types; without custom syntax only the weaker law C16_longstring_plain is claimed (text is read back as the '
                 'tokenizer reads the unsplit _fgd_escape image; text ending in a dangling backslash is excluded); the keyvalue-line theorems are for custom_syntax=True',
@@ -51,7 +55,9 @@ LEVEL_TEXT = ("Lean theorems over executable models: C16_longstring (for EVERY s
               "LIMIT characters, and _read_colon_list reads it back as that one string; the negation is proved for the code before the "
               "fix; C16_longstring_plain: the weaker law without custom syntax), C16_kvdef_roundtrip / C16_iodef_roundtrip / C16_entity_body_partial "
               "(parseKV (tokens (exportKV k)) = ok (norm k) for keyvalue lines incl. tags, flags, colon list, choices / spawnflags blocks; I/O lines; "
-              "the entity body as a list of lines; the open spawnflags-default-desc class excluded with its negation witness), C16_strdict / C16_kv / C16_ent (string-index and record round trips of the binary format), C16_lazy_* (for every "
+              "the entity body as a list of lines; the open spawnflags-default-desc class excluded with its negation witness), C16_entity_roundtrip / "
+              "C16_fgd_roundtrip_partial (whole entity definitions: @Kind, base/aliasof, helpers, classname, description, body, @resources; files of entities in sorted order; "
+              "three shipped entities checked as instances), C16_strdict / C16_kv / C16_ent (string-index and record round trips of the binary format), C16_lazy_* (for every "
               "query list on a fresh database the queried entities equal those of the full load; idempotence; order independence; "
               "C16_lazy_history: also for histories in which callers arbitrarily edit earlier results). "
               "Model tied to the current source by the translator (shape of _write_longstring, tokenizer options, index tables) and by a "
